@@ -382,4 +382,4 @@ LEVEL_TEXT = ("Decides on all CFG paths the marker-first / registry-last creatio
 LEVEL_NOTE = "Trusted: rustc MIR/type facts; the resource-creating callee table (rules/C04.py RES). Not decided: kernel behaviour at a crash point."
 TECHNIQUE = "static analysis: MIR dominance chains over sibling constructors, field (drop) order, match exhaustiveness, coverage of registry fields"
 
-THOROUGH_UNIVERSES = ['dev_permissions']
+THOROUGH_UNIVERSES = ['dev_permissions', 'no_std']
